@@ -14,29 +14,35 @@ import sys
 HERE = os.path.dirname(os.path.dirname(os.path.abspath(__file__)))
 
 AVOID = {
-    "C01": "the collection index grids of the coplanar-lines branch, the dtype conversion of the arguments, and the tolerance of the linear-dependence check in _join_meet_duality, and the single/collection path switch of the coplanar-lines branch",
-    "C02": "the np.all(coplanar) test, the LinearDependenceError mask logic in _join_meet_duality, and Tensor.is_zero, and a fast path in LineTensor.meet",
-    "C03": "PolygonTensor.contains, rotation() and Conic.from_tangent, and SegmentTensor.contains",
-    "C04": "TensorCollection.__iter__, the threshold in QuadricTensor.components and the early return of is_coplanar, and the early return of the 3D branch of PolygonTensor.contains",
-    "C05": "TensorDiagram.add_node, the KroneckerDelta cache and the dimension check of TensorDiagram.add_edge, and the sign computation of LeviCivitaTensor",
-    "C06": "TransformationTensor.inverse, TransformationTensor.__pow__ and TransformationTensor.__apply__, and Tensor.__apply__",
-    "C07": "TransformationTensor.inverse, PolygonTensor.__apply__ and memoising QuadricTensor.dual, and a fast path in PointLikeTensor.__apply__",
-    "C08": "translation(), reflection() and Transformation.from_points, and Transformation.from_points_and_conics",
-    "C09": "the plane/plane branch and the equality short-cut of dist, and the dtype handling of _point_dist, and the kind dispatch of angle()",
-    "C10": "SubspaceTensor.general_point, is_coplanar and the contains-branch of LineTensor.perpendicular, and PlaneTensor.basis_matrix",
-    "C11": "the 3D-lines branch, the a == b shortcut and the collinear-points reduction of crossratio, and SubspaceTensor.general_point as used by harmonic_set",
-    "C12": "PolygonTensor._normalized_projection, LineTensor.perpendicular and PointLikeTensor._normalize_array, and the KroneckerDelta cache",
-    "C13": "Cone.__init__, Ellipse.__init__ and Sphere.__init__, and Conic.foci",
-    "C14": "the pivot argmax in QuadricTensor.components, QuadricTensor.dual and the plane selection for LineCollections in the 3D branch of QuadricTensor.intersect, and the single-Line path of the 3D branch of QuadricTensor.intersect",
-    "C15": "QuadricTensor.components' pivot, the triple-root shortcut in roots() and the pencil computation in Conic.intersect, and the dispatch on the degenerate operand in Conic.intersect",
-    "C16": "the 'coplanar &' of PolygonTensor.contains, Triangle.contains and memoising in SegmentTensor.contains, and the vertex-ordering step of the ray casting in PolygonTensor.contains",
-    "C17": "Polygon.centroid, PolytopeTensor.__eq__ and PolygonTensor.area, and SegmentTensor.midpoint",
-    "C18": "PolygonTensor.intersect's LinearDependenceError handler, the skew-segment branch of SegmentTensor.intersect and memoising Polyhedron.faces, and the membership filter of the segment branch of PolygonTensor.intersect",
-    "C19": "Tensor._get_index_mapping, Tensor.transpose and Tensor._elementwise_result, and the scalar branch of PointLikeTensor.__mul__/__truediv__",
-    "C20": "adjugate, the quadratic branch of roots and null_space, and is_multiple",
+    "C01": "the collection index grids of the coplanar-lines branch, the dtype conversion of the arguments, and the tolerance of the linear-dependence check in _join_meet_duality, and the single/collection path switch of the coplanar-lines branch, and the alignment of collection axes in TensorDiagram.calculate",
+    "C02": "the np.all(coplanar) test, the LinearDependenceError mask logic in _join_meet_duality, and Tensor.is_zero, and a fast path in LineTensor.meet, and the de-duplication of repeated argument objects in _join_meet_duality",
+    "C03": "PolygonTensor.contains, rotation() and Conic.from_tangent, and SegmentTensor.contains, and the last-coordinate test in PointLikeTensor.__mul__/__truediv__",
+    "C04": "TensorCollection.__iter__, the threshold in QuadricTensor.components and the early return of is_coplanar, and the early return of the 3D branch of PolygonTensor.contains, and the squeeze in the 3D branch of QuadricTensor.intersect",
+    "C05": "TensorDiagram.add_node, the KroneckerDelta cache and the dimension check of TensorDiagram.add_edge, and the sign computation of LeviCivitaTensor, and the dtype widening in TensorDiagram.calculate",
+    "C06": "TransformationTensor.inverse, TransformationTensor.__pow__ and TransformationTensor.__apply__, and Tensor.__apply__, and the dtype of the result of utils.math.inv",
+    "C07": "TransformationTensor.inverse, PolygonTensor.__apply__ and memoising QuadricTensor.dual, and a fast path in PointLikeTensor.__apply__, and the 3D-lines branch of crossratio",
+    "C08": "translation(), reflection() and Transformation.from_points, and Transformation.from_points_and_conics, and the angle handling of rotation()",
+    "C09": "the plane/plane branch and the equality short-cut of dist, and the dtype handling of _point_dist, and the kind dispatch of angle(), and the plane/line branch of dist",
+    "C10": "SubspaceTensor.general_point, is_coplanar and the contains-branch of LineTensor.perpendicular, and PlaneTensor.basis_matrix, and SubspaceTensor.is_parallel",
+    "C11": "the 3D-lines branch, the a == b shortcut and the collinear-points reduction of crossratio, and SubspaceTensor.general_point as used by harmonic_set, and the collinearity check of the points branch of crossratio",
+    "C12": "PolygonTensor._normalized_projection, LineTensor.perpendicular and PointLikeTensor._normalize_array, and the KroneckerDelta cache, and dtype casts of the node arrays in TensorDiagram.calculate",
+    "C13": "Cone.__init__, Ellipse.__init__ and Sphere.__init__, and Conic.foci, and the candidate ranking in Conic.from_tangent",
+    "C14": "the pivot argmax in QuadricTensor.components, QuadricTensor.dual and the plane selection for LineCollections in the 3D branch of QuadricTensor.intersect, and the single-Line path of the 3D branch of QuadricTensor.intersect, and QuadricTensor.is_degenerate",
+    "C15": "QuadricTensor.components' pivot, the triple-root shortcut in roots() and the pencil computation in Conic.intersect, and the dispatch on the degenerate operand in Conic.intersect, and the reducibility guard of QuadricTensor.components",
+    "C16": "the 'coplanar &' of PolygonTensor.contains, Triangle.contains and memoising in SegmentTensor.contains, and the vertex-ordering step of the ray casting in PolygonTensor.contains, and the single-Point fast path of the 3D branch of PolygonTensor.contains",
+    "C17": "Polygon.centroid, PolytopeTensor.__eq__ and PolygonTensor.area, and SegmentTensor.midpoint, and Simplex.volume",
+    "C18": "PolygonTensor.intersect's LinearDependenceError handler, the skew-segment branch of SegmentTensor.intersect and memoising Polyhedron.faces, and the membership filter of the segment branch of PolygonTensor.intersect, and SegmentTensor.contains",
+    "C19": "Tensor._get_index_mapping, Tensor.transpose and Tensor._elementwise_result, and the scalar branch of PointLikeTensor.__mul__/__truediv__, and Tensor.tensor_product",
+    "C20": "adjugate, the quadratic branch of roots and null_space, and is_multiple, and the singularity test of inv",
 }
 
 EMPHASIS = {
+    6: ("Prefer a change in a LESS OFTEN USED part of the public API that still belongs to the property: methods of the collection classes, "
+        "operations on objects obtained from other operations (the result of a meet, an edge or face of a polytope, an indexed element of a "
+        "collection, a transformed object), the method form next to the function form, keyword arguments and optional parameters, the less common "
+        "argument kinds (planes instead of lines, 1D points, dual quadrics, points at infinity, complex coordinates), or the second of two code paths "
+        "that the documentation describes together. The violation may also need a short SEQUENCE of two or three public calls whose results feed into "
+        "each other. Do NOT use memoisation / caching of properties, and do not mutate an argument in place."),
     5: ("Prefer one of these kinds of change: (a) an error path - the wrong exception type, an exception swallowed or raised for a valid input, a mask / "
         "dependent_values array with the wrong shape or content; (b) a tolerance, threshold or comparison (<= vs <, abs missing, relative vs absolute, "
         "isclose arguments swapped) that only matters for inputs close to but clearly on one side of a boundary, or for large / small but exactly "
